@@ -188,10 +188,15 @@ func c19ErrorsAbort(c *Ctx, r *Report) {
 		"(*html/template.Template).Parse":   true,
 		"(*html/template.Template).Execute": true,
 		"text/template.Must":                false,
+		"os.Open":                           true,
+		"os.ReadFile":                       true,
+		"io/ioutil.ReadAll":                 true,
+		"io/ioutil.ReadFile":                true,
+		"io.ReadAll":                        true,
 	}
 	n := 0
 	for _, f := range c.AllFuncs() {
-		if !strings.HasPrefix(f.Name, "Builder.") {
+		if !strings.HasPrefix(f.Name, "Builder.") && !strings.HasPrefix(f.Name, "yaccgo.") {
 			continue
 		}
 		info := f.Pkg.TypesInfo
@@ -202,15 +207,35 @@ func c19ErrorsAbort(c *Ctx, r *Report) {
 				return true
 			}
 			fn := callee(info, call)
+			name := ""
 			if fn == nil {
-				return true
-			}
-			name := shortFuncName(fn)
-			if !watched[name] && !watched[fn.FullName()] {
-				return true
+				// a call through a function-typed parameter whose last result is an error (the generator passed to
+				// the command-line driver)
+				id, ok := unparen(call.Fun).(*ast.Ident)
+				if !ok {
+					return true
+				}
+				v, ok := info.Uses[id].(*types.Var)
+				if !ok {
+					return true
+				}
+				sig, ok := v.Type().Underlying().(*types.Signature)
+				if !ok || sig.Results().Len() == 0 || sig.Results().At(sig.Results().Len()-1).Type().String() != "error" {
+					return true
+				}
+				name = id.Name + " (function value)"
+			} else {
+				name = shortFuncName(fn)
+				if !watched[name] && !watched[fn.FullName()] {
+					return true
+				}
 			}
 			n++
-			key := f.Name + "/error-of-" + fn.Name() + "-aborts"
+			short := strings.Fields(name)[0]
+			if fn != nil {
+				short = fn.Name()
+			}
+			key := f.Name + "/error-of-" + short + "-aborts"
 			// the statement holding the call
 			var st ast.Stmt
 			for cur := ast.Node(call); cur != nil; cur = pm[cur] {
@@ -241,6 +266,16 @@ func c19ErrorsAbort(c *Ctx, r *Report) {
 				}
 			}
 			okTest := false
+			// propagated as it is: the next statement returns the error variable
+			if blk, ok := pm[as].(*ast.BlockStmt); ok {
+				for i, s2 := range blk.List {
+					if s2 == ast.Stmt(as) && i+1 < len(blk.List) {
+						if rt, ok := blk.List[i+1].(*ast.ReturnStmt); ok && len(rt.Results) > 0 && identObj(info, rt.Results[len(rt.Results)-1]) == errObj {
+							okTest = true
+						}
+					}
+				}
+			}
 			if test != nil {
 				if be, ok := unparen(test.Cond).(*ast.BinaryExpr); ok && be.Op == token.NEQ && identObj(info, be.X) == errObj {
 					if id, ok := unparen(be.Y).(*ast.Ident); ok && id.Name == "nil" && endsInExit(test.Body) {
@@ -265,8 +300,8 @@ func c19ErrorsAbort(c *Ctx, r *Report) {
 			return true
 		})
 	}
-	if n < 5 {
-		r.Undecided("C19.c", "ERROR-DISCIPLINE", "Builder/fallible-steps", "Builder", fmt.Sprintf("only %d calls of the fallible steps were found (expected ParseAndBuild ×2, os.Create ×2, template Parse, Execute)", n))
+	if n < 8 {
+		r.Undecided("C19.c", "ERROR-DISCIPLINE", "Builder/fallible-steps", "Builder", fmt.Sprintf("only %d calls of the fallible steps were found (expected ParseAndBuild, os.Create ×2, template Parse, Execute, os.Open, ReadAll, the generator call)", n))
 	}
 }
 
